@@ -16,7 +16,7 @@ RULE = ("seeded operation histories (add incl. start=True, overwrite-add, remove
         "views after every public call. 'big' histories pre-load 5001 positions so that start=True opens further "
         "trees. non-trivial = history with >= 10 force queries that saw >= 1 neighbour; distinct = hash of the "
         "operation list"
-        ' Later: pre-loaded residues confined to a slab with probes next to residues of later trees; queries exactly on a positioned residue.')
+        ' Later: pre-loaded residues confined to a slab with probes next to residues of later trees; queries exactly on a positioned residue; residues given beforehand as arrays of the molecule graphs and a write_back operation (update_positions_in_molecules) compared residue by residue with the model.')
 ASSUMPTIONS = ["a force query within 0.1 nm of an *excluded* residue may return inf or the finite sum (statement silent)",
                "pairs whose distance is within 1e-9 of the cut-off or of 0.1 nm are accepted either way",
                "queries are made for nodes that are not themselves positioned"]
@@ -24,7 +24,8 @@ CASE_TIMEOUT = 300
 WALL = {"quick": 900, "thorough": 7200}
 REQUIRED = {"ops": 20000, "force_queries": 2000, "force_queries_with_neighbours": 500, "force_across_face": 100,
             "inf_rule_hits": 20, "overwrite_adds": 100, "removals": 1000, "trees_emptied": 10, "multi_tree_histories": 3,
-            "removals_spanning_trees": 3, "force_queries_neighbours_only_in_later_tree": 5, "queries_exactly_on_a_residue": 100, "invariant_evaluations": 20000, "engine_states": 1000}
+            "removals_spanning_trees": 3, "force_queries_neighbours_only_in_later_tree": 5, "queries_exactly_on_a_residue": 100, "invariant_evaluations": 20000, "engine_states": 1000,
+            "write_backs": 100, "written_back_positions_compared": 2000}
 INV = {"n": 0}
 
 
@@ -106,6 +107,18 @@ def run_case(cid, rng, workdir):
             nodes[(9, k)] = nm * per + k
             pos[nm * per + k] = [rng.uniform(0, box[0] * slab), rng.uniform(0, box[1]), rng.uniform(0, box[2])]
         types += ["A"] * 5001
+    # the molecules the positions are written back to; in some histories a few residues come with coordinates of their
+    # own (as read from a structure file): they sit in the molecule and in the table the engine is created with
+    import networkx as nx
+    mols = [nx.path_graph(per) for _ in range(nm)]
+    if rng.random() < 0.5:
+        for m in range(nm):
+            for i in range(per):
+                if rng.random() < 0.3:
+                    q = np.array([rng.uniform(0, b * 0.999) for b in box])
+                    pos[nodes[(m, i)]] = q
+                    mols[m].nodes[i]["position"] = q.copy()
+        bump(res, "histories_with_residues_given_beforehand")
     im = {}
     for a, b in itertools.combinations_with_replacement("ABC", 2):
         im[frozenset([a, b])] = ((sizes[a] + sizes[b]) / 2, 1.0)
@@ -244,9 +257,33 @@ def run_case(cid, rng, workdir):
                 if any(t.n == 0 for t in eng.position_trees):
                     bump(res, "trees_emptied")
             elif c < 0.63:
-                ops.append(("concatenate",))
-                eng.concatenate_trees()
-                bump(res, "consolidations")
+                if rng.random() < 0.5:
+                    ops.append(("concatenate",))
+                    eng.concatenate_trees()
+                    bump(res, "consolidations")
+                else:
+                    # positions written back to the molecules: each residue carries the last position given, or an
+                    # undefined one after removal
+                    ops.append(("write_back",))
+                    eng.update_positions_in_molecules(mols)
+                    bump(res, "write_backs")
+                    for mm in range(nm):
+                        for kk in range(per):
+                            got = np.asarray(mols[mm].nodes[kk].get("position", np.full(3, np.inf)), float)
+                            exp = model.get((mm, kk))
+                            bump(res, "written_back_positions_compared")
+                            if exp is None:
+                                if np.any(np.isfinite(got)):
+                                    bump(res, "written_back_after_removal")
+                                    bad("written-back-position-after-removal-defined",
+                                        "residue (%d,%d) has no position in the system but the molecule carries %s after "
+                                        "update_positions_in_molecules" % (mm, kk, got.tolist()))
+                                    break
+                            elif not np.array_equal(got, exp):
+                                bad("written-back-position-not-last-given",
+                                    "residue (%d,%d): molecule carries %s, last position given was %s" %
+                                    (mm, kk, got.tolist(), exp.tolist()))
+                                break
             elif c < 0.75:
                 ops.append(("get", m, i))
                 g = eng.get_point(m, i)
